@@ -1062,7 +1062,13 @@ def panic_sites(f):
             continue
         t = b['t']
         if t['k'] == 'assert':
-            out.append((t['msg'], bi, [f.expr_operand(o) for o in t.get('mops', [])]))
+            if t['msg'] in ('div_zero', 'rem_zero'):
+                # the assert message carries the dividend; the divisor is inside the condition Eq(divisor, 0)
+                c = f.expr_operand(t['cond'])
+                ops = [c[2]] if c[0] == 'binop' and c[1] == 'Eq' else [c]
+                out.append((t['msg'], bi, ops))
+            else:
+                out.append((t['msg'], bi, [f.expr_operand(o) for o in t.get('mops', [])]))
         elif t['k'] == 'call':
             callee = t.get('callee') or ''
             for rx, kind in _PANIC_RX:
